@@ -100,12 +100,10 @@ Lemma inject_nat_S : forall n, inject_Z (Z.of_nat (S n)) == inject_Z (Z.of_nat n
 Proof. intros n. rewrite Nat2Z.inj_succ. unfold Z.succ. rewrite inject_Z_plus. reflexivity. Qed.
 
 Lemma ksum_ge_eps : forall k n, epsS <= ksum k n.
-Proof.
-  intros [|] n; cbn [ksum]; [lra|]. pose proof (inject_nat_nonneg n). pose proof epsS_pos. nra.
-Qed.
+Proof. intros k n. unfold ksum. lra. Qed.
 
 Lemma kneg_bounds : forall k, 0 <= kneg k /\ kneg k <= epsS.
-Proof. intros [|]; cbn [kneg]; pose proof epsS_pos; split; lra. Qed.
+Proof. intros k. unfold kneg. pose proof epsS_pos. split; lra. Qed.
 
 Lemma prob_row_k : forall k n l, prob_row l -> prob_row_tol (kneg k) (ksum k n) l.
 Proof.
@@ -141,12 +139,12 @@ Proof.
 Qed.
 
 Lemma drop_small_prob_row : forall n l, length l = n -> prob_row l ->
-  length (map drop_small l) = n /\ prob_row_tol (kneg Sparse) (ksum Sparse n) (map drop_small l).
+  length (map drop_small l) = n /\ prob_row_tol (kneg0 Sparse) (ksum0 Sparse n) (map drop_small l).
 Proof.
   intros n l Hl [ql [-> [Hn [L U]]]]. split; [rewrite map_length; exact Hl|].
   apply nonneg_neg0 in Hn. destruct (drop_small_row ql Hn) as [ql' [E [Hn' [L' U']]]].
   rewrite map_length in Hl. rewrite Hl in L'. pose proof epsS_pos.
-  exists ql'. split; [exact E|]. cbn [kneg ksum]. split.
+  exists ql'. split; [exact E|]. cbn [kneg0 ksum0]. split.
   - eapply Forall_impl; [|exact Hn']. cbn beta. intros x Hx. lra.
   - pose proof (inject_nat_nonneg n). split; nra.
 Qed.
@@ -217,31 +215,43 @@ Lemma shape2_rshape : forall n1 n2 r, shape2 n1 n2 r = true -> rshape_ok n1 n2 r
 Proof. intros n1 n2 r H. exact (shape2_spec _ _ _ _ H). Qed.
 
 (* ---------------------------------------------------------------- setT3 / setTM / setO3 *)
-Lemma setT3_ok : forall k S A n3 t T, shape3 S A n3 t = true -> setT3 k S A t = Some T ->
+Lemma tab_ok_strengthen : forall (P Q : list xq -> Prop) n1 n2 n3 T,
+  tab_ok Q n1 n2 n3 T -> Forall (Forall P) T -> tab_ok P n1 n2 n3 T.
+Proof.
+  intros P Q n1 n2 n3 T [L1 L2] HF. split; [exact L1|]. intros i Hi. destruct (L2 i Hi) as [L3 L4].
+  split; [exact L3|]. intros j Hj. destruct (L4 j Hj) as [L5 _]. split; [exact L5|].
+  apply Forall2_nth; [exact HF| lia| lia].
+Qed.
+
+Lemma setT3_ok : forall k S A n3 t T, shape3 S A n3 t = true -> setT3 true k S A t = Some T ->
   tab_ok (prob_row_tol (kneg k) (ksum k n3)) A S n3 T.
 Proof.
   intros k S A n3 t T Hs H. unfold setT3 in H. destruct (isProbability3 t) eqn:E; [|discriminate].
   apply isProbability3_iff_lemma in E. pose proof (tab_ok_transpose _ _ _ _ _ Hs E) as Hok.
-  destruct k; inversion H; subst T.
-  - eapply tab_ok_weaken; [|exact Hok]. intros r Hr. apply (prob_row_k Dense). exact Hr.
-  - eapply tab_ok_map; [exact Hok|]. intros r Hl Hr. apply drop_small_prob_row; assumption.
+  destruct k.
+  - inversion H; subst T. exact Hok.
+  - cbn [andb isProbabilityS3f] in H.
+    destruct (isProbability3 (map (map (map drop_small)) (transpose01 S A t))) eqn:E2; cbn [negb] in H; [|discriminate].
+    inversion H; subst T. apply isProbability3_iff_lemma in E2.
+    eapply tab_ok_strengthen; [|exact E2].
+    eapply (tab_ok_map _ (fun _ => True)); [exact Hok|]. intros r Hl _. split; [rewrite map_length; exact Hl| exact I].
 Qed.
 
-Lemma setO3_eq : forall k S A t, setO3 k S A t = setT3 k S A t.
+Lemma setO3_eq : forall fixed k S A t, setO3 fixed k S A t = setT3 fixed k S A t.
 Proof. reflexivity. Qed.
 
-Lemma setTM_ok : forall k n1 n2 n3 t T, shape3 n1 n2 n3 t = true -> setTM k t = Some T ->
+Lemma setTM_ok : forall k n1 n2 n3 t T, shape3 n1 n2 n3 t = true -> setTM true k t = Some T ->
   T = t /\ tab_ok (prob_row_tol (kneg k) (ksum k n3)) n1 n2 n3 T.
 Proof.
   intros k n1 n2 n3 t T Hs H. unfold setTM in H. destruct k.
   - destruct (isProbabilityM3 t) eqn:E; [|discriminate]. inversion H; subst T. split; [reflexivity|].
-    apply isProbabilityM3_iff_lemma in E. eapply tab_ok_weaken; [|apply (tab_ok_direct _ _ _ _ _ Hs E)].
-    intros r Hr. apply (prob_row_k Dense). exact Hr.
-  - destruct (isProbabilityS3 t) eqn:E; [|discriminate]. inversion H; subst T. split; [reflexivity|].
-    apply isProbabilityS3_iff_lemma in E. eapply tab_ok_weaken; [|apply (tab_ok_direct _ _ _ _ _ Hs E)].
-    intros r Hr. apply sprob_row_tol_lemma in Hr. cbn [kneg].
-    apply (prob_row_tol_weaken epsS epsS); [lra| apply (ksum_ge_eps Sparse)| exact Hr].
+    apply isProbabilityM3_iff_lemma in E. exact (tab_ok_direct _ _ _ _ _ Hs E).
+  - cbn [isProbabilityS3f] in H. destruct (isProbability3 t) eqn:E; [|discriminate]. inversion H; subst T.
+    split; [reflexivity|]. apply isProbability3_iff_lemma in E. exact (tab_ok_direct _ _ _ _ _ Hs E).
 Qed.
+
+Lemma setTM_same : forall fixed k t T, setTM fixed k t = Some T -> T = t.
+Proof. intros fixed k t T H. unfold setTM in H. destruct (match k with Dense => _ | Sparse => _ end); inversion H; reflexivity. Qed.
 
 (* ---------------------------------------------------------------- copy constructors *)
 Lemma all_some_spec : forall (A : Type) (l : list (option A)) r, all_some l = Some r ->
@@ -317,7 +327,7 @@ Proof.
     destruct (shape3 s a s t && shape3 s a s r0) eqn:Es; cbn [negb] in H; [|discriminate].
     apply andb_true_iff in Es. destruct Es as [Es _].
     destruct (setDiscount_ok true d) eqn:Ed; cbn [negb] in H; [|discriminate].
-    destruct (setT3 k s a t) as [T|] eqn:ET; [|discriminate]. inversion H; subst m r. split; [|reflexivity].
+    destruct (setT3 true k s a t) as [T|] eqn:ET; [|discriminate]. inversion H; subst m r. split; [|reflexivity].
     unfold valid_model_k, valid_model_tol. cbn [mS mA mT mR mD].
     split; [eapply setT3_ok; eassumption|]. split; [apply rewards3_ok|]. apply setDiscount_iff_lemma. exact Ed.
   - (* CtorCopy *)
@@ -335,7 +345,7 @@ Proof.
   - destruct (fixed && negb (setDiscount_ok fixed d)); inversion H; discriminate.
   - destruct (negb (shape3 s a s t && shape3 s a s r0)); [inversion H; discriminate|].
     destruct (negb (setDiscount_ok fixed d)); [inversion H; discriminate|].
-    destruct (setT3 k s a t); inversion H; discriminate.
+    destruct (setT3 fixed k s a t); inversion H; discriminate.
   - destruct (negb (shape3 (gS g) (gA g) (gS g) (gT g) && shape3 (gS g) (gA g) (gS g) (gR g))); [inversion H; discriminate|].
     destruct (negb (setDiscount_ok fixed (gD g))); [inversion H; discriminate|].
     destruct (copyT k (gS g) (gA g) (gT g)); inversion H; discriminate.
@@ -349,14 +359,14 @@ Proof.
   - (* SetT3 *)
     destruct (shape3 (mS m) (mA m) (mS m) t) eqn:Es; cbn [negb] in H;
       [| inversion H; subst m' r; split; [split; [exact HT| split; [exact HR| exact HD]]| reflexivity]].
-    destruct (setT3 k (mS m) (mA m) t) as [T|] eqn:ET;
+    destruct (setT3 true k (mS m) (mA m) t) as [T|] eqn:ET;
       [| inversion H; subst m' r; split; [split; [exact HT| split; [exact HR| exact HD]]| reflexivity]].
     inversion H; subst m' r. split; [|congruence]. unfold valid_model_k, valid_model_tol. cbn [mS mA mT mR mD].
     split; [eapply setT3_ok; eassumption|]. split; [exact HR| exact HD].
   - (* SetTM *)
     destruct (shape3 (mA m) (mS m) (mS m) t) eqn:Es; cbn [negb] in H;
       [| inversion H; subst m' r; split; [split; [exact HT| split; [exact HR| exact HD]]| reflexivity]].
-    destruct (setTM k t) as [T|] eqn:ET;
+    destruct (setTM true k t) as [T|] eqn:ET;
       [| inversion H; subst m' r; split; [split; [exact HT| split; [exact HR| exact HD]]| reflexivity]].
     inversion H; subst m' r. split; [|congruence]. unfold valid_model_k, valid_model_tol. cbn [mS mA mT mR mD].
     destruct (setTM_ok _ _ _ _ _ _ Es ET) as [_ Hok]. split; [exact Hok|]. split; [exact HR| exact HD].
@@ -406,17 +416,21 @@ Proof.
 Qed.
 
 Lemma valid_model_k_dense : forall m, valid_model_k Dense m <-> valid_model m.
-Proof. intros m. unfold valid_model_k, valid_model. cbn [kneg ksum]. tauto. Qed.
+Proof. intros m. unfold valid_model_k, valid_model, kneg, ksum. tauto. Qed.
 
-Lemma setter_validate_then_commit_lemma :
-  (forall st o st' r, ovalid valid_model st -> step true Dense st o = (st', r) ->
+Lemma valid_model_k_any : forall k m, valid_model_k k m <-> valid_model m.
+Proof. intros k m. unfold valid_model_k, valid_model, kneg, ksum. tauto. Qed.
+
+(* both MDP classes, the property's own notion of validity *)
+Lemma setter_validate_then_commit_lemma : forall k,
+  (forall st o st' r, ovalid valid_model st -> step true k st o = (st', r) ->
      ovalid valid_model st' /\ (r <> Ok -> st' = st)) /\
-  (forall ops, ovalid valid_model (run true Dense ops)).
+  (forall ops, ovalid valid_model (run true k ops)).
 Proof.
-  destruct (setter_validate_then_commit_k_lemma Dense) as [H1 H2]. split.
-  - intros st o st' r Hv Hs. destruct (H1 st o st' r) as [A B]; [destruct st; [apply valid_model_k_dense|]; exact Hv| exact Hs|].
-    split; [destruct st'; [apply valid_model_k_dense|]; exact A| exact B].
-  - intros ops. specialize (H2 ops). destruct (run true Dense ops); [apply valid_model_k_dense|]; exact H2.
+  intros k. destruct (setter_validate_then_commit_k_lemma k) as [H1 H2]. split.
+  - intros st o st' r Hv Hs. destruct (H1 st o st' r) as [A B]; [destruct st; [apply valid_model_k_any|]; exact Hv| exact Hs|].
+    split; [destruct st'; [apply (valid_model_k_any k)|]; exact A| exact B].
+  - intros ops. specialize (H2 ops). destruct (run true k ops); [apply (valid_model_k_any k)|]; exact H2.
 Qed.
 
 (* ---------------------------------------------------------------- POMDP state machine *)
@@ -434,7 +448,7 @@ Proof.
     destruct (negb (is_ctor c)); [discriminate|].
     destruct (construct true kb c) as [[m|] r'] eqn:Ec; [|discriminate].
     destruct (shape3 (mS m) (mA m) o obf) eqn:Es; cbn [negb] in H; [|discriminate].
-    destruct (setO3 ko (mS m) (mA m) obf) as [ob|] eqn:EO; [|discriminate]. inversion H; subst p r.
+    destruct (setO3 true ko (mS m) (mA m) obf) as [ob|] eqn:EO; [|discriminate]. inversion H; subst p r.
     destruct (construct_valid _ _ _ _ Ec) as [Hm _]. split; [|reflexivity]. split; [exact Hm|].
     cbn [pM pO pOb]. rewrite setO3_eq in EO. eapply setT3_ok; eassumption.
   - (* PCtorCopy *)
@@ -449,9 +463,9 @@ Lemma setter_dims : forall fixed k m o m' r, setter fixed k m o = (m', r) -> mS 
 Proof.
   intros fixed k m o m' r H. destruct o; cbn [setter] in H; try (inversion H; subst; split; reflexivity).
   - destruct (negb (shape3 (mS m) (mA m) (mS m) t)); [inversion H; subst; split; reflexivity|].
-    destruct (setT3 k (mS m) (mA m) t); inversion H; subst; split; reflexivity.
+    destruct (setT3 fixed k (mS m) (mA m) t); inversion H; subst; split; reflexivity.
   - destruct (negb (shape3 (mA m) (mS m) (mS m) t)); [inversion H; subst; split; reflexivity|].
-    destruct (setTM k t); inversion H; subst; split; reflexivity.
+    destruct (setTM fixed k t); inversion H; subst; split; reflexivity.
   - destruct (negb (shape3 (mS m) (mA m) (mS m) r0)); inversion H; subst; split; reflexivity.
   - destruct (negb (shape2 (mS m) (mA m) r0)); inversion H; subst; split; reflexivity.
   - destruct (setDiscount_ok fixed d); inversion H; subst; split; reflexivity.
@@ -472,14 +486,14 @@ Proof.
   - (* PSetO3 *)
     destruct (shape3 (mS (pM p)) (mA (pM p)) (pO p) obf) eqn:Es; cbn [negb] in H;
       [| inversion H; subst p' r; split; [split; assumption| reflexivity]].
-    destruct (setO3 ko (mS (pM p)) (mA (pM p)) obf) as [ob|] eqn:EO;
+    destruct (setO3 true ko (mS (pM p)) (mA (pM p)) obf) as [ob|] eqn:EO;
       [| inversion H; subst p' r; split; [split; assumption| reflexivity]].
     inversion H; subst p' r. split; [|congruence]. split; [exact HM|]. cbn [pM pO pOb].
     rewrite setO3_eq in EO. eapply setT3_ok; eassumption.
   - (* PSetOM *)
     destruct (shape3 (mA (pM p)) (mS (pM p)) (pO p) obf) eqn:Es; cbn [negb] in H;
       [| inversion H; subst p' r; split; [split; assumption| reflexivity]].
-    destruct (setTM ko obf) as [ob|] eqn:EO;
+    destruct (setTM true ko obf) as [ob|] eqn:EO;
       [| inversion H; subst p' r; split; [split; assumption| reflexivity]].
     inversion H; subst p' r. split; [|congruence]. split; [exact HM|]. cbn [pM pO pOb].
     exact (proj2 (setTM_ok _ _ _ _ _ _ Es EO)).
